@@ -85,25 +85,35 @@ type Snapshot struct {
 
 // State is one symbolic execution path.
 type State struct {
-	e        *Engine
-	script   []Line
-	heap     map[string]string // heap array / ghost name -> current term
-	havocs   []havocRec
-	declared map[string]bool
-	frames   []*Frame
-	path     []string
-	nonnil   map[string]bool
-	locks    map[string]string // lock identity -> "W" or "R"
-	iters    map[string]*Iter
-	ctxs     map[string]ctxRec // payload term -> WithValue record
-	funcs    map[string]*FuncV // func id term -> static function
-	notes    []string
-	depth    int
-	dead     bool
-	mapOwner map[string]mapOwner
-	lockSnap *Snapshot         // state right after the most recent lock acquisition
-	private  map[string]bool   // objects allocated by this call and not yet published
-	birth    map[string]string // reference term -> allocated-set term at the time the value became known
+	e          *Engine
+	script     []Line
+	heap       map[string]string // heap array / ghost name -> current term
+	havocs     []havocRec
+	declared   map[string]bool
+	frames     []*Frame
+	path       []string
+	nonnil     map[string]bool
+	locks      map[string]string // lock identity -> "W" or "R"
+	iters      map[string]*Iter
+	ctxs       map[string]ctxRec // payload term -> WithValue record
+	funcs      map[string]*FuncV // func id term -> static function
+	notes      []string
+	depth      int
+	dead       bool
+	mapOwner   map[string]mapOwner
+	chanOwner  map[string]chanOwner
+	tokens     []buildTok
+	released   []buildTok
+	recvd      map[string]bool
+	borrowed   map[string]string
+	universals []string
+	instDone   map[string]bool
+	sawTokens  bool
+	inDetached bool
+	lockSnap   *Snapshot         // state right after the most recent lock acquisition
+	lockSnaps  []*Snapshot       // every lock acquisition of this call, in order
+	private    map[string]bool   // objects allocated by this call and not yet published
+	birth      map[string]string // reference term -> allocated-set term at the time the value became known
 }
 
 type ctxRec struct {
@@ -115,7 +125,7 @@ type ctxRec struct {
 func (e *Engine) newState() *State {
 	return &State{e: e, heap: map[string]string{},
 		declared: map[string]bool{}, nonnil: map[string]bool{}, locks: map[string]string{}, iters: map[string]*Iter{},
-		ctxs: map[string]ctxRec{}, funcs: map[string]*FuncV{}, birth: map[string]string{}, private: map[string]bool{}, mapOwner: map[string]mapOwner{}}
+		ctxs: map[string]ctxRec{}, funcs: map[string]*FuncV{}, birth: map[string]string{}, private: map[string]bool{}, mapOwner: map[string]mapOwner{}, chanOwner: map[string]chanOwner{}, recvd: map[string]bool{}, borrowed: map[string]string{}, instDone: map[string]bool{}}
 }
 
 func (st *State) clone() *State {
@@ -146,6 +156,24 @@ func (st *State) clone() *State {
 	}
 	n.birth = copyMap(st.birth)
 	n.lockSnap = st.lockSnap
+	n.lockSnaps = append([]*Snapshot{}, st.lockSnaps...)
+	n.chanOwner = map[string]chanOwner{}
+	for k, v := range st.chanOwner {
+		n.chanOwner[k] = v
+	}
+	n.borrowed = copyMap(st.borrowed)
+	n.universals = append([]string{}, st.universals...)
+	n.instDone = map[string]bool{}
+	for k, v := range st.instDone {
+		n.instDone[k] = v
+	}
+	n.sawTokens = st.sawTokens
+	n.recvd = map[string]bool{}
+	for k, v := range st.recvd {
+		n.recvd[k] = v
+	}
+	n.tokens = append([]buildTok{}, st.tokens...)
+	n.released = append([]buildTok{}, st.released...)
 	n.mapOwner = map[string]mapOwner{}
 	for k, v := range st.mapOwner {
 		n.mapOwner[k] = v
@@ -208,6 +236,51 @@ func (st *State) assume(t string) {
 		return
 	}
 	st.script = append(st.script, Line{Kind: lAssert, Text: t})
+	if strings.Contains(t, "(forall ") && len(st.universals) < 60 {
+		for _, u := range topUniversals(t) {
+			if len(instantiateAt(u, []string{"0"})) > 0 {
+				st.universals = append(st.universals, u)
+			}
+		}
+	}
+}
+
+// instantiateForArray: like instantiateFor, restricted to the quantified facts that mention the given array
+// (frame facts "objects allocated before the call are unchanged", reference axioms) and a concrete index term.
+func (st *State) instantiateForArray(arr, term string) {
+	key := arr + "\x00" + term
+	if st.instDone[key] || strings.Contains(term, "$") || len(term) > 400 {
+		return
+	}
+	st.instDone[key] = true
+	needle := "|" + sanitize(arr) + "@"
+	n := 0
+	for _, u := range st.universals {
+		if !strings.Contains(u, needle) {
+			continue
+		}
+		for _, inst := range instantiateAt(u, []string{term}) {
+			st.script = append(st.script, Line{Kind: lAssert, Text: inst})
+			n++
+		}
+		if n > 20 {
+			break
+		}
+	}
+}
+
+// instantiateFor adds the instances of the universally quantified facts of this path at a ground term that the
+// code is about to use as a map key (a sound hint: quantifier instantiation by the engine instead of the solver).
+func (st *State) instantiateFor(term string) {
+	if st.instDone[term] || strings.Contains(term, "$") {
+		return
+	}
+	st.instDone[term] = true
+	for _, u := range st.universals {
+		for _, inst := range instantiateAt(u, []string{term}) {
+			st.script = append(st.script, Line{Kind: lAssert, Text: inst})
+		}
+	}
 }
 
 // fresh declares a fresh constant of the given sort.
@@ -270,9 +343,10 @@ func (st *State) assumeWellFormed(v Val) {
 // ---- heap arrays and ghost variables (ghost names start with "G|") ----
 
 type havocRec struct {
-	pat   string
-	id    int
-	alloc string // allocated-set term right after this havoc ("" = unchanged)
+	pat    string
+	id     int
+	alloc  string    // allocated-set term right after this havoc ("" = unchanged)
+	before *Snapshot // state right before the havoc (for append-only ghost logs)
 }
 
 func matchPat(pat, name string) bool {
@@ -339,10 +413,55 @@ func (st *State) arr(name string, sort string) string {
 	if !st.declared[base] {
 		st.declBase(base, sort, st.e.ghostInit[name])
 		st.refAxiom(name, base, sort, len(st.havocs))
+		st.logAxiom(name, base, sort, len(st.havocs))
 	}
 	st.heap[name] = base
 	st.e.arrSorts[name] = sort
 	return base
+}
+
+// logCounter: the counter that bounds an append-only ghost log array ("" if the array is not a log).
+func logCounter(name string) string {
+	switch {
+	case name == "G|clk":
+		return "G|nclk"
+	case strings.HasPrefix(name, "G|res|"), strings.HasPrefix(name, "G|arg|"):
+		rest := name[6:]
+		if i := strings.LastIndex(rest, "|"); i > 0 {
+			return "G|cnt|" + rest[:i]
+		}
+	case name == "G|rand":
+		return "G|cnt|rand"
+	}
+	return ""
+}
+
+// logAxiom: ghost call logs and the clock log are append-only. A havoc (a call whose frame mentions the log) can
+// only append: entries below the counter value before the havoc are unchanged, and the counter does not decrease.
+func (st *State) logAxiom(name, base, sort string, upto int) {
+	var rec *havocRec
+	for i := upto - 1; i >= 0; i-- {
+		if matchPat(st.havocs[i].pat, name) {
+			rec = &st.havocs[i]
+			break
+		}
+	}
+	if rec == nil || rec.before == nil {
+		return
+	}
+	if strings.HasPrefix(name, "G|cnt|") || name == "G|nclk" {
+		prev := st.arrIn(rec.before, name, "Int")
+		st.assume(fmt.Sprintf("(>= %s %s)", base, prev))
+		return
+	}
+	cn := logCounter(name)
+	if cn == "" || !strings.HasPrefix(sort, "(Array Int ") {
+		return
+	}
+	st.e.ghostInit[cn] = "(>= $ 0)"
+	prevArr := st.arrIn(rec.before, name, sort)
+	prevCnt := st.arrIn(rec.before, cn, "Int")
+	st.assume(fmt.Sprintf("(forall ((i Int)) (! (=> (< i %s) (= (select %s i) (select %s i))) :pattern ((select %s i))))", prevCnt, base, prevArr, base))
 }
 
 func (st *State) setArr(name, sort, term string) {
@@ -361,6 +480,9 @@ func (st *State) havoc(pat string) {
 	rec := havocRec{pat: pat, id: st.e.counter}
 	if pat != allocName {
 		rec.alloc = st.alloc()
+	}
+	if strings.HasPrefix(pat, "G|") && pat != allocName {
+		rec.before = st.snapshot()
 	}
 	st.havocs = append(st.havocs, rec)
 	for name := range st.heap {
@@ -430,9 +552,13 @@ func (st *State) oblige(kind, label string, props []string, goal string, pos tok
 	return ob
 }
 
-func (st *State) cover(label string, props []string) {
+func (st *State) cover(label string, props []string, pos token.Pos) {
 	e := st.e
 	ob := &Obligation{Name: fmt.Sprintf("%s/cover:%s", e.curFn, label), Fn: e.curFn, Kind: "cover", Props: props, Goal: "false", Path: st.pathString(), Expect: "sat"}
+	if pos.IsValid() {
+		p := e.P.Prog.Fset.Position(pos)
+		ob.Pos = fmt.Sprintf("%s:%d", shortFile(p.Filename), p.Line)
+	}
 	e.obID++
 	ob.ID = e.obID
 	st.script = append(st.script, Line{Kind: lCheck, Ob: ob})
